@@ -89,6 +89,8 @@ type Doc struct {
 	// ConflictExcluded / ClonedDirs: see GenOpts.PConflictExcluded / PCloneDirs.
 	ConflictExcluded int
 	ClonedDirs       int
+	// Mutation: the operation is a mutation (root type Mutation).
+	Mutation bool
 }
 
 func litText(v interface{}) string {
@@ -180,10 +182,22 @@ func (s *SelSet) print(sb *strings.Builder, indent string) {
 }
 
 // Text renders the document as GraphQL.
+// RootType is the root object type of the operation.
+func (d *Doc) RootType() string {
+	if d.Mutation {
+		return "Mutation"
+	}
+	return "Query"
+}
+
 func (d *Doc) Text() string {
 	var sb strings.Builder
-	if d.OpName != "" || len(d.Vars) > 0 {
-		sb.WriteString("query")
+	if d.OpName != "" || len(d.Vars) > 0 || d.Mutation {
+		if d.Mutation {
+			sb.WriteString("mutation")
+		} else {
+			sb.WriteString("query")
+		}
 		if d.OpName != "" {
 			sb.WriteString(" " + d.OpName)
 		}
@@ -263,7 +277,7 @@ func (d *Doc) Included(ds []Dir) bool {
 // differently from another); variables that are no longer referenced are
 // removed from the declaration list and from the supplied values.
 func (d *Doc) Prune() *Doc {
-	out := &Doc{OpName: d.OpName, VarValues: map[string]interface{}{}}
+	out := &Doc{OpName: d.OpName, Mutation: d.Mutation, VarValues: map[string]interface{}{}}
 	used := map[string]bool{}
 	var prune func(s *SelSet) *SelSet
 	prune = func(s *SelSet) *SelSet {
@@ -444,7 +458,7 @@ func (d *Doc) Features(sd *SchemaDesc) Features {
 			}
 		}
 	}
-	walk(d.Root, "Query", 1)
+	walk(d.Root, d.RootType(), 1)
 	return ft
 }
 
